@@ -156,7 +156,7 @@ class C19(Check):
 
     # -------------------------------------------------------------------------------- generation
     def generate(self, seed, tier):
-        n = 900 if tier == "quick" else 40000
+        n = 2400 if tier == "quick" else 40000
         for i in range(n):
             r = random.Random(stable_hash("C19", seed, i))
             yield self.gen_case(r, f"gen/{seed}/{i}", i)
@@ -474,9 +474,10 @@ class C20(Check):
     prop = "C20"
     level_text = ("Theorems over the reals: north-south leg = R*|dphi| exactly, east-west leg = 2R*asin(cos(phi0)*|sin(dlambda/2)|) "
                   "within [R cos(phi0)|dl|(1-dl^2/24), R cos(phi0)|dl|], x/y/z and their signs in all four quadrants (signed closed "
-                  "form), exact distances along the reference meridian, geographic goto = Cartesian goto to the converted point "
-                  "(every scalar type); the general 0.5% bound is proved where stated in Properties/C20.lean and otherwise "
-                  "supported by the sampled comparison of this check.")
+                  "form), exact distances along the reference meridian, the general bound (|lat0| <= 60 deg, both targets within 5 km: "
+                  "converted distance within 0.3% < 0.5% of great-circle distance + altitude), geographic goto = Cartesian goto to "
+                  "the converted point (every scalar type).  The 1% band for 60 < |lat0| <= 80 deg is supported by the sampled "
+                  "comparison of this check only.")
     rule = ("references over latitudes +-80 deg and all longitudes, 2-8 targets within 5 km in all four quadrants with unequal "
             "offsets, mirror pairs straddling the reference meridian / parallel, targets on the axes; bit-level agreement of "
             "geo_to_cartesian with the model; pairwise converted distance vs an independent 3-D-chord great-circle distance "
@@ -489,7 +490,7 @@ class C20(Check):
                 "gradysim/simulator/handler/mobility.py (handle_command: GOTO_GEO_COORDS)"]
 
     def generate(self, seed, tier):
-        n = 1200 if tier == "quick" else 60000
+        n = 2400 if tier == "quick" else 60000
         for i in range(n):
             r = random.Random(stable_hash("C20", seed, i))
             yield self.gen_case(r, f"gen/{seed}/{i}", i)
